@@ -456,4 +456,134 @@ theorem specOf_suggest (sp : Impl.DetectSpec) (hd : Distinct sp) :
         (by omega) (by have := b4 l hl; omega)
       simpa using this.1
 
+/-! ### auto-detection is a FIRST FIT, role by role
+
+The code walks the headers and, for each, tries the roles in the order date, description, amount, location (`if/elif`, a role only
+while its slot is empty).  Read role by role this is: the date column is the first header carrying a date keyword; the description
+column is the first header carrying a description keyword that is not the date column; the amount column the first header carrying an
+amount keyword that is neither; the location column likewise.  In particular a header whose wording mentions two kinds of column
+("Payment Date", "Debit Description", "City Name") serves ONE role: the first of them still open when the header is reached. -/
+
+/-- the first-fit reading of a detection state, over abstract "header j carries a keyword of the role" predicates -/
+structure FF (Md Ms Ma Ml : Nat → Prop) (d : Impl.Detected) : Prop where
+  date_some : ∀ x, d.date = some x → Md x ∧ ∀ j, j < x → ¬ Md j
+  date_none : d.date = none → ∀ j, ¬ Md j
+  desc_some : ∀ x, d.desc = some x → Ms x ∧ d.date ≠ some x ∧ ∀ j, j < x → Ms j → d.date = some j
+  desc_none : d.desc = none → ∀ j, Ms j → d.date = some j
+  amount_some : ∀ x, d.amount = some x → Ma x ∧ d.date ≠ some x ∧ d.desc ≠ some x ∧
+    ∀ j, j < x → Ma j → d.date = some j ∨ d.desc = some j
+  amount_none : d.amount = none → ∀ j, Ma j → d.date = some j ∨ d.desc = some j
+  loc_some : ∀ x, d.location = some x → Ml x ∧ d.date ≠ some x ∧ d.desc ≠ some x ∧ d.amount ≠ some x ∧
+    ∀ j, j < x → Ml j → d.date = some j ∨ d.desc = some j ∨ d.amount = some j
+  loc_none : d.location = none → ∀ j, Ml j → d.date = some j ∨ d.desc = some j ∨ d.amount = some j
+
+/-- the if/elif chain on the four match results -/
+def stepB (idx : Nat) (d : Impl.Detected) (bd bs ba bl : Bool) : Impl.Detected :=
+  if d.date.isNone && bd then { d with date := some idx }
+  else if d.desc.isNone && bs then { d with desc := some idx }
+  else if d.amount.isNone && ba then { d with amount := some idx }
+  else if d.location.isNone && bl then { d with location := some idx }
+  else d
+
+theorem ff_step (n : Nat) (Md Ms Ma Ml Md' Ms' Ma' Ml' : Nat → Prop) (bd bs ba bl : Bool)
+    (hd : ∀ j, Md' j ↔ Md j ∨ (j = n ∧ bd = true)) (hs : ∀ j, Ms' j ↔ Ms j ∨ (j = n ∧ bs = true))
+    (ha : ∀ j, Ma' j ↔ Ma j ∨ (j = n ∧ ba = true)) (hl : ∀ j, Ml' j ↔ Ml j ∨ (j = n ∧ bl = true))
+    (ld : ∀ j, Md j → j < n) (ls : ∀ j, Ms j → j < n) (la : ∀ j, Ma j → j < n) (ll : ∀ j, Ml j → j < n)
+    (d : Impl.Detected) (h : FF Md Ms Ma Ml d) : FF Md' Ms' Ma' Ml' (stepB n d bd bs ba bl) := by
+  obtain ⟨h1, h2, h3, h4, h5, h6, h7, h8⟩ := h
+  obtain ⟨dd, ds, da, dl⟩ := d
+  simp only [] at h1 h2 h3 h4 h5 h6 h7 h8
+  unfold stepB
+  simp only [Bool.and_eq_true, Option.isNone_iff_eq_none]
+  split
+  · rename_i hc
+    obtain ⟨hc1, hc2⟩ := hc
+    subst hc1 hc2
+    constructor <;> grind
+  · rename_i hn1
+    split
+    · rename_i hc
+      obtain ⟨hc1, hc2⟩ := hc
+      subst hc1 hc2
+      constructor <;> grind
+    · rename_i hn2
+      split
+      · rename_i hc
+        obtain ⟨hc1, hc2⟩ := hc
+        subst hc1 hc2
+        constructor <;> grind
+      · rename_i hn3
+        split
+        · rename_i hc
+          obtain ⟨hc1, hc2⟩ := hc
+          subst hc1 hc2
+          constructor <;> grind
+        · rename_i hn4
+          constructor <;> grind
+
+
+/-- header `j` of the row `hs` carries a keyword of the list `tbl` -/
+def HeaderMatches (e : Ext) (hs : List Str) (tbl : List Str) (j : Nat) : Prop :=
+  ∃ h, hs[j]? = some h ∧ Impl.matchHeader e h tbl = true
+
+theorem headerMatches_lt {e : Ext} {hs : List Str} {tbl : List Str} {j : Nat} (h : HeaderMatches e hs tbl j) :
+    j < hs.length := by
+  obtain ⟨x, hx, _⟩ := h
+  exact (List.getElem?_eq_some_iff.mp hx).1
+
+theorem headerMatches_snoc (e : Ext) (pre : List Str) (h : Str) (tbl : List Str) (j : Nat) :
+    HeaderMatches e (pre ++ [h]) tbl j ↔ HeaderMatches e pre tbl j ∨ (j = pre.length ∧ Impl.matchHeader e h tbl = true) := by
+  unfold HeaderMatches
+  constructor
+  · rintro ⟨x, hx, hm⟩
+    by_cases hj : j < pre.length
+    · rw [List.getElem?_append_left hj] at hx; exact Or.inl ⟨x, hx, hm⟩
+    · rw [List.getElem?_append_right (by omega)] at hx
+      have hj0 : j - pre.length = 0 := by
+        cases hk : j - pre.length with
+        | zero => rfl
+        | succ k => rw [hk] at hx; simp at hx
+      rw [hj0] at hx
+      simp at hx; subst hx
+      exact Or.inr ⟨by omega, hm⟩
+  · rintro (⟨x, hx, hm⟩ | ⟨rfl, hm⟩)
+    · have hj := (List.getElem?_eq_some_iff.mp hx).1
+      exact ⟨x, by rw [List.getElem?_append_left hj]; exact hx, hm⟩
+    · exact ⟨h, by simp, hm⟩
+
+theorem detectStep_eq_stepB (e : Ext) (idx : Nat) (d : Impl.Detected) (h : Str) :
+    Impl.detectStep e idx d h = stepB idx d (Impl.matchHeader e h FmtTables.DATE_PATTERNS)
+      (Impl.matchHeader e h FmtTables.DESC_PATTERNS) (Impl.matchHeader e h FmtTables.AMOUNT_PATTERNS)
+      (Impl.matchHeader e h FmtTables.LOCATION_PATTERNS) := rfl
+
+/-- the first-fit reading of the detection state, for the headers read so far -/
+def FirstFit (e : Ext) (hs : List Str) (d : Impl.Detected) : Prop :=
+  FF (HeaderMatches e hs FmtTables.DATE_PATTERNS) (HeaderMatches e hs FmtTables.DESC_PATTERNS)
+    (HeaderMatches e hs FmtTables.AMOUNT_PATTERNS) (HeaderMatches e hs FmtTables.LOCATION_PATTERNS) d
+
+theorem firstFit_loop (e : Ext) : ∀ (hs pre : List Str) (d : Impl.Detected),
+    FirstFit e pre d → FirstFit e (pre ++ hs) (Impl.detectLoop e pre.length d hs) := by
+  intro hs
+  induction hs with
+  | nil => intro pre d h; simpa [Impl.detectLoop] using h
+  | cons h hs ih =>
+    intro pre d hff
+    have hstep : FirstFit e (pre ++ [h]) (Impl.detectStep e pre.length d h) := by
+      rw [detectStep_eq_stepB]
+      exact ff_step pre.length _ _ _ _ _ _ _ _ _ _ _ _
+        (headerMatches_snoc e pre h _) (headerMatches_snoc e pre h _) (headerMatches_snoc e pre h _)
+        (headerMatches_snoc e pre h _) (fun _ => headerMatches_lt) (fun _ => headerMatches_lt)
+        (fun _ => headerMatches_lt) (fun _ => headerMatches_lt) d hff
+    have := ih (pre ++ [h]) _ hstep
+    simpa [Impl.detectLoop] using this
+
+/-- the state after the whole header row is its first fit -/
+theorem firstFit_detectLoop (e : Ext) (hs : List Str) :
+    FirstFit e hs (Impl.detectLoop e 0 ⟨none, none, none, none⟩ hs) := by
+  have h0 : FirstFit e [] ⟨none, none, none, none⟩ := by
+    have hno : ∀ tbl j, ¬ HeaderMatches e [] tbl j := by
+      intro tbl j ⟨x, hx, _⟩; simp at hx
+    constructor <;> intros <;> simp_all
+  simpa using firstFit_loop e hs [] _ h0
+
 end TallyVerif.Fmt
